@@ -118,6 +118,15 @@ def h_part_sym(params, x: str, y: str):
         o = ord(ch)
         ok = ok & (((48 <= o) & (o <= 57)) | ((65 <= o) & (o <= 90)) | ((97 <= o) & (o <= 122)) | (o == 43) | (o == 46) | (o == 126))
     assume(ok)
+    if "pa" in params:
+        # concrete prefixes (long digit runs: digit-width boundaries) + symbolic tails, kernel called directly:
+        # whole-version parsing of 20-character symbolic strings costs more than the comparison itself
+        px, py = params["pa"] + x, params["pb"] + y
+        want = D.sign(D.verrevcmp(px, py))
+        got = D.sign(NativeVersion._version_cmp_part(px, py))
+        require(got == want, "_version_cmp_part differs from dpkg", a="1:" + px + "-1", b="1:" + py + "-1", got=got, want=want)
+        require(D.sign(NativeVersion._version_cmp_part(py, px)) == -want, "antisymmetry", a=px, b=py)
+        return
     h_part(params, x, y)
 
 
@@ -143,8 +152,9 @@ def h_trans(params, a: str, b: str, c: str):
 
 
 # ------------------------------------------------------------------ engine C
-def _fixed(P, z3, name, n):
-    return P.SStr(n, [z3.Int("%s_%d" % (name, i)) for i in range(n)])
+def _fixed(P, z3, name, n, prefix=""):
+    """A string of |prefix| concrete characters followed by n symbolic ones."""
+    return P.SStr(len(prefix) + n, [ord(c) for c in prefix] + [z3.Int("%s_%d" % (name, i)) for i in range(n)])
 
 
 def _sgn(z3, x):
@@ -214,7 +224,8 @@ def _validate_translation(P, z3, fn_term, strs, real, samples):
         pairs = []
         for s, v in zip(strs, vals):
             for i, c in enumerate(s.ch):
-                pairs.append((c, z3.IntVal(ord(v[i]))))
+                if P.is_sym(c):
+                    pairs.append((c, z3.IntVal(ord(v[i]))))
         got = z3.simplify(z3.substitute(P.I(fn_term), *pairs)) if pairs else z3.simplify(P.I(fn_term))
         want = real(*vals)
         if not z3.is_int_value(got) or D.sign(got.as_long()) != D.sign(want):
@@ -233,11 +244,12 @@ def lemma_kernel(params):
     import z3
     from .. import pysym as P
     la, lb = params["la"], params["lb"]
+    pa, pb = params.get("pa", ""), params.get("pb", "")
     q = _Q(params)
     try:
-        a, b = _fixed(P, z3, "a", la), _fixed(P, z3, "b", lb)
+        a, b = _fixed(P, z3, "a", la, pa), _fixed(P, z3, "b", lb, pb)
         cons = P.alphabet(a, UP_RANGES) + P.alphabet(b, UP_RANGES)
-        N = max(la, lb)
+        N = max(la + len(pa), lb + len(pb))
         it = P.Interp(NativeVersion, N + 1)
         impl = it.call(NativeVersion._version_cmp_part, [P.PyRef(NativeVersion), a, b])
         it2 = P.Interp(NativeVersion, N + 1)
@@ -251,7 +263,7 @@ def lemma_kernel(params):
         return out
     q.functions = it.functions_seen
     rnd = random.Random(params.get("seed", 0) * 1000 + la * 10 + lb)
-    samples = [(_rand_part(rnd, la, UP_RANGES), _rand_part(rnd, lb, UP_RANGES)) for _ in range(25)]
+    samples = [(pa + _rand_part(rnd, la, UP_RANGES), pb + _rand_part(rnd, lb, UP_RANGES)) for _ in range(25)]
     bad = _validate_translation(P, z3, impl, [a, b], lambda x, y: NativeVersion._version_cmp_part(x, y), samples) or \
         _validate_translation(P, z3, spec, [a, b], D.verrevcmp, samples)
     if bad:
@@ -453,6 +465,15 @@ def partitions(tier, seed):
             P.append(dict(name="part-vs-dpkg/%d-%d" % (la, lb), harness="h_part_sym", params=dict(la=la, lb=lb),
                           budget=70 if tier == "quick" else 1500, reach=[],
                           bounds="engine A: all parts |x|=%d |y|=%d over [A-Za-z0-9.+~] embedded as upstream versions, dpkg reference executed symbolically" % (la, lb)))
+    # digit-width boundaries (9/10, 18/19/20 digits) and other long shapes: concrete prefixes, symbolic tails
+    D10, D19, D20 = "1234567890", "9223372036854775807", "18446744073709551616"
+    prefixes = [(D10, D10), ("00" + D10, D10), (D10, D10[:9] + "1"), (D19, D19), (D20, D20), (D10 + ".", D10 + "."), ("1.0~rc", "1.0~rc"),
+                (D10[:9], D10[:9]), ("20240101120000", "20240101120000")]
+    for pi, (pa, pb) in enumerate(prefixes if tier != "quick" else prefixes[:5] + prefixes[8:]):
+        for la, lb in (((0, 1), (1, 0), (1, 1), (2, 2)) if tier == "quick" else ((0, 1), (1, 0), (1, 1), (1, 2), (2, 1), (2, 2), (3, 3))):
+            P.append(dict(name="long/%s..-%s../%d-%d" % (pa[:4] + str(len(pa)), pb[:4] + str(len(pb)), la, lb), harness="h_part_sym",
+                          params=dict(la=la, lb=lb, pa=pa, pb=pb), budget=60 if tier == "quick" else 900, reach=[],
+                          bounds="engine A: parts %r+x vs %r+y with |x|=%d |y|=%d symbolic over [A-Za-z0-9.+~], against the dpkg reference" % (pa, pb, la, lb)))
     P.append(dict(name="operators/n2", kind="py", func="lemma_ops", params=dict(n=2, timeout_ms=900000), budget=900,
                   bounds="the six rich-comparison methods vs the dpkg sign; epoch None or 1-2 digits, upstream/revision 1..2 chars"))
     L = 2 if tier == "quick" else 3
